@@ -605,15 +605,16 @@ theorem updateStates_ok {P : Project} {g : G} {t : Nat} : ∀ (ns : List Nat) (w
       have := h v' (by simp [hv'])
       simpa [stateOf] using this
 
-/-- The persist implementation raised: every neighbour has a state, and one of them changed. -/
+/-- The persist implementation raised: the task carries the mark and no `would_be_executed` mark
+(repair of F20), every neighbour has a state, and one of them changed. -/
 def PersistCond (P : Project) (g : G) (s : Sess) (t : TaskSpec) : Prop :=
-  t.persist = true ∧ (∀ v ∈ neighbours g t.id, (stateOf P s.w v).isSome = true) ∧
+  (t.persist = true ∧ t.id ∉ s.wbeMarks) ∧ (∀ v ∈ neighbours g t.id, (stateOf P s.w v).isSome = true) ∧
   ∃ v ∈ neighbours g t.id, hasChanged s.w t.id v (stateOf P s.w v) = true
 
 theorem setupImpl_persist_iff {P : Project} {g : G} {cfg : Cfg} {s : Sess} {t : TaskSpec} :
     setupImpl P g cfg s t "persist" = .persisted ↔ PersistCond P g s t := by
   have e : setupImpl P g cfg s t "persist" =
-      if t.persist then
+      if (t.persist && !s.wbeMarks.contains t.id) then
         (if ((neighbours g t.id).map (stateOf P s.w)).all (·.isSome) then
           (if ((neighbours g t.id).zip ((neighbours g t.id).map (stateOf P s.w))).any
                 (fun (v, st) => hasChanged s.w t.id v st) then .persisted else .none)
@@ -628,12 +629,14 @@ theorem setupImpl_persist_iff {P : Project} {g : G} {cfg : Cfg} {s : Sess} {t : 
     induction l with
     | nil => simp
     | cons x xs ih => simp only [List.map_cons, List.zip_cons_cons, List.any_cons, Bool.or_eq_true, ih, List.mem_cons, exists_eq_or_imp]
-  by_cases h1 : t.persist = true
-  · by_cases h2 : ∀ v ∈ neighbours g t.id, (stateOf P s.w v).isSome = true
+  have hg : (t.persist && !s.wbeMarks.contains t.id) = true ↔ (t.persist = true ∧ t.id ∉ s.wbeMarks) := by simp
+  by_cases h1 : (t.persist && !s.wbeMarks.contains t.id) = true
+  · have h1' := hg.1 h1
+    by_cases h2 : ∀ v ∈ neighbours g t.id, (stateOf P s.w v).isSome = true
     · have h2' : ((neighbours g t.id).map (stateOf P s.w)).all (·.isSome) = true := by simpa using h2
       by_cases h3 : ∃ v ∈ neighbours g t.id, hasChanged s.w t.id v (stateOf P s.w v) = true
       · simp only [h1, h2', (hz _).2 h3, if_true, true_and]
-        exact ⟨fun _ => ⟨h2, h3⟩, fun _ => trivial⟩
+        exact ⟨fun _ => ⟨h1', h2, h3⟩, fun _ => trivial⟩
       · have : ¬ ((neighbours g t.id).zip ((neighbours g t.id).map (stateOf P s.w))).any (fun (v, st) => hasChanged s.w t.id v st) = true :=
           fun h => h3 ((hz _).1 h)
         simp only [h1, h2', this, if_true]
@@ -641,7 +644,9 @@ theorem setupImpl_persist_iff {P : Project} {g : G} {cfg : Cfg} {s : Sess} {t : 
     · have h2' : ¬ ((neighbours g t.id).map (stateOf P s.w)).all (·.isSome) = true := by simpa using h2
       simp only [h1, h2', if_true]
       simp [h2]
-  · simp [h1]
+  · have h1' : ¬ (t.persist = true ∧ t.id ∉ s.wbeMarks) := fun h => h1 (hg.2 h)
+    simp only [h1]
+    simp [h1']
 
 theorem setupImpl_skipping_none {P : Project} {g : G} {cfg : Cfg} {s : Sess} {t : TaskSpec} :
     setupImpl P g cfg s t "skipping" = .none ↔ ¬ SkipCond s t ∧ t.id ∉ s.failMarks := by
